@@ -42,7 +42,12 @@ LEAN_MODULES = ["GardenVerif.Props.C24"]
 FORBIDDEN_MSG = "Tried to execute unsafe code in sandboxed mode"
 SCRATCH_ROOT = os.path.join(common.BUILD, "scratch", "sandbox")
 SENTINEL = b"C24-STDIN-SENTINEL-7f3a\nsecond line\n"
-SECRET = "C24SECRETc0ffee"
+SECRET = "C24SECRETc0ffee"          # content of fixture files: seeing it in the output is a file read
+# value of an environment variable of the sandboxed process. Reading the environment is an ambient
+# read that property C24 does not list (files through the filesystem API, processes, stdin): seeing
+# it in the output is recorded as an observation in the evidence, never as a violation. It shares no
+# substring with SECRET.
+ENV_VALUE = "C24ENVVALUE5eed"
 CANARIES = ["canary", "ls", "sh", "touch", "echo", "cat", "rm", "true"]
 TIMEOUT = 10
 
@@ -113,7 +118,7 @@ def run_observed(garden, argv, case_dir, timeout=TIMEOUT):
     os.write(w, SENTINEL)
     os.close(w)
     env = {"PATH": os.path.join(case_dir, "bin") + ":/usr/bin:/bin", "HOME": os.path.join(case_dir, "home"),
-           "LANG": "C.UTF-8", "C24_ENV_SECRET": "env-" + SECRET, "RUST_BACKTRACE": "0"}
+           "LANG": "C.UTF-8", "C24_ENV_SECRET": ENV_VALUE, "RUST_BACKTRACE": "0"}
     rc = None
     try:
         # `ulimit -v` through sh instead of preexec_fn: lets subprocess use vfork (a fork of the
@@ -350,8 +355,12 @@ def effects_observed(res):
     if not res["stdin_unread"]:
         ev.append("stdin was read")
     if SECRET in res["out"] or SECRET in res["err"]:
-        ev.append("content of a fixture file / env secret appears in the output")
+        ev.append("content of a fixture file appears in the output")
     return ev
+
+
+def env_value_observed(res):
+    return ENV_VALUE in res["out"] or ENV_VALUE in res["err"]
 
 
 # ------------------------------------------------------------------------------ the check
@@ -401,6 +410,12 @@ def judge_sandboxed(ctx, arm, mode, position, src, res, effectful, tag=""):
     cls = classify(mode, res, position)
     ev = effects_observed(res)
     name = arm["name"] if arm else "sequence"
+    if env_value_observed(res):
+        obs = ctx.cov.setdefault("env_var_value_read_in_sandbox", {"runs": 0, "arms": [], "note":
+                                 "ambient read, not a C24 effect (reported only)"})
+        obs["runs"] += 1
+        if name not in obs["arms"]:
+            obs["arms"].append(name)
     base = dict(arm=name, mode=mode, position=position, program=src, observed=cls,
                 stdout=res["out"][-600:], stderr=res["err"][-300:], rc=res["rc"], replay_cmd=replay_cmd(mode, src))
     if res["rc"] == -9999:
@@ -476,7 +491,7 @@ def _run(ctx, rng, t, arms, root):
         "found and not a parse error)." % (n_eff_tuples, n_free_tuples))
     ctx.assumptions += [
         "effects are observed as: change of the per-case scratch tree (content hash, mode, mtime), canary "
-        "executables on PATH, consumption of a sentinel on stdin, fixture/env secret in the output; pure reads "
+        "executables on PATH, consumption of a sentinel on stdin, content of a fixture file in the output (the value of an env var is only an observation); pure reads "
         "whose result is discarded are observable only through the forbidden error demanded for effectful arms",
         "tools/extract_tables.py recognises the effectful std calls by a fixed pattern list (files, directories, "
         "metadata queries, processes, stdin, sockets, set_current_dir, set_var, unsafe/libc)",
